@@ -5,7 +5,8 @@
    [Gen i p] (an RA is generated for interface i on path p in {Initial, Periodic, Solicited, Final, Verify, Scrape,
    Api}; ScrapeIdle is the metrics scrape visiting an interface that does not advertise: no RA is generated).  The machine's state is the environment's flag map only -- the daemon holds no copy.  [cfg i] is the RA
    built from interface i's configuration and plugins; its lifetime field is the configured default lifetime.
-   [flag_at f0 before i] is the flag of i after the events [before]: its last flip, else the initial value. *)
+   [flag_at f0 before i] is the flag of i after the events [before]: its last flip, else the initial value.
+   [GenFail i p]: a generation attempt on path p whose State read fails (the failure is an input, like the flag). *)
 From CR Require Import Model.Forwarding.
 From CR Require Import Proofs.Forwarding.
 Local Open Scope Z_scope.
@@ -50,11 +51,21 @@ Theorem C04_flag_tracks : forall f0 l i,
   flag_at f0 [] i = f0 i /\
   (forall b, flag_at f0 (l ++ [SetFwd i b]) i = b) /\
   (forall j b, i <> j -> flag_at f0 (l ++ [SetFwd j b]) i = flag_at f0 l i) /\
-  (forall j p, flag_at f0 (l ++ [Gen j p]) i = flag_at f0 l i).
+  (forall j p, flag_at f0 (l ++ [Gen j p]) i = flag_at f0 l i) /\
+  (forall j p, flag_at f0 (l ++ [GenFail j p]) i = flag_at f0 l i).
 Proof.
   intros. split; [reflexivity|]. split; [intro; apply flag_at_snoc_set_same|].
-  split; [intros; apply flag_at_snoc_set_other; assumption | intros; apply flag_at_snoc_gen].
+  split; [intros; apply flag_at_snoc_set_other; assumption |].
+  split; [intros; apply flag_at_snoc_gen | intros; apply flag_at_snoc_genfail].
 Qed.
+
+(* fail closed: a generation whose State read fails (permission denied or any other error) yields NO RA -- nothing
+   is sent, compared, exported or rendered -- on every path, whether the flag is on or off; in particular never an
+   RA with the configured lifetime.  Later generations read the flag again (C04_generation quantifies over event
+   lists containing GenFail events). *)
+Theorem C04_read_failure : forall cfg evs f0 k i p,
+  nth_error evs k = Some (GenFail i p) -> nth_error (run cfg f0 evs) k = Some None.
+Proof. exact run_nth_fail. Qed.
 
 (* RFC 4861 6.2.5 in one line: not forwarding -> router lifetime 0, whatever the configuration and the path *)
 Corollary C04_never_default_router : forall cfg evs f0 k i p o,
@@ -124,14 +135,14 @@ Definition ex_cfg (i : N) : ra :=
   mkRA 64 false false Medium (if N.eqb i 1 then 1800 * sec else 0) 0 0 [OMTU 1500].
 Definition ex_events : list event :=
   [Gen 1 Initial; SetFwd 1 false; Gen 1 Periodic; Gen 1 Scrape; Gen 1 Api; Gen 2 Scrape; SetFwd 2 false; Gen 2 Solicited;
-   SetFwd 1 true; Gen 1 Verify; Gen 1 Final].
+   GenFail 2 Periodic; GenFail 1 Scrape; SetFwd 1 true; GenFail 1 Solicited; Gen 1 Verify; Gen 1 Final].
 Example C04_example :
   map (option_map (fun o => (ra_lifetime (o_ra o), o_misconf o, o_logged o, o_gauge o, o_fwd_gauge o)))
       (run ex_cfg (fun _ => true) ex_events) =
   [ Some (1800 * sec, false, false, None, None); None;
     Some (0, true, true, None, None); Some (0, true, false, Some true, Some false); Some (0, true, false, None, None);
     Some (0, false, false, Some false, Some true); None; Some (0, false, false, None, None);
-    None; Some (1800 * sec, false, false, None, None); Some (0, false, false, None, None) ].
+    None; None; None; None; Some (1800 * sec, false, false, None, None); Some (0, false, false, None, None) ].
 Proof. vm_compute. reflexivity. Qed.
 
 (* an unused interface 3 (its stanza would yield a 1800 s lifetime) listed after the advertising, non-forwarding
@@ -147,6 +158,7 @@ Proof. vm_compute. reflexivity. Qed.
 Print Assumptions C04_generation.
 Print Assumptions C04_paths.
 Print Assumptions C04_flag_tracks.
+Print Assumptions C04_read_failure.
 Print Assumptions C04_never_default_router.
 Print Assumptions C04_forwarding_silent.
 Print Assumptions C04_zero_lifetime_silent.
